@@ -44,10 +44,9 @@ package reclaim
 // C03: a reclaimer is reported as served only if its gang is satisfied in the state the returned statement describes.
 //@ func (*reclaimAction).attemptToReclaimForSpecificJob
 //@   props C07 C05 C06 C03 C10
-//@   usestable Session.ClusterInfo
+//@   usestable Session.ClusterInfo ClusterInfo.Queues map[common_info.QueueID]*queue_info.QueueInfo PodGroupInfo.Queue
 //@   requires ssn != nil && ssn.ClusterInfo != nil && reclaimer != nil
-//@   assume ssn.ClusterInfo.Queues[reclaimer.Queue] != nil
-//@   note assume (queue record of the reclaimer exists): a popped job was pushed by InitializeWithJobs, which pushes only jobs whose queue is in the snapshot (utils.queueOK); PopNextJob's assumed contract does not export "the result was pushed", so the caller cannot hand it over
+//@   requires [queueKnown] ssn.ClusterInfo.Queues[reclaimer.Queue] != nil
 //@   modifies *
 //@   ensures [successMeansGangSatisfied] result0 ==> solvers.gangSat(reclaimer)
 //@   trust [successIsCommittable] result0 ==> result1 != nil && framework.commitReady(result1) && framework.wfLog(result1) && framework.flatLog(result1)
@@ -82,12 +81,13 @@ package reclaim
 // skipped for one of the two reasons above or attempted ([orderDrained]; a failed attempt does not stop the loop).
 //@ func (*reclaimAction).Execute
 //@   props C05 C06 C07 C03 C10
-//@   usestable MinimalJobRepresentatives.representatives map[common_info.SchedulingConstraintsSignature]*podgroup_info.PodGroupInfo PodGroupInfo.Queue Session.ClusterInfo
+//@   usestable MinimalJobRepresentatives.representatives map[common_info.SchedulingConstraintsSignature]*podgroup_info.PodGroupInfo PodGroupInfo.Queue Session.ClusterInfo JobsOrderByQueues.ssn ClusterInfo.Queues map[common_info.QueueID]*queue_info.QueueInfo
 //@   requires ssn != nil && ssn.ClusterInfo != nil && ssn.Config != nil && sessionJobsOK(ssn)
 //@   requires [queueDepthNotZero] ssn.GetJobsDepth("reclaim") != 0
 //@   modifies *
 //@   loop 1
 //@     modifies *
+//@     invariant [orderSession] jobsOrderByQueues.ssn == ssn
 //@     invariant [tablesExist] forall q in smallestFailedJobsByQueue :: smallestFailedJobsByQueue[q] != nil && allocated(smallestFailedJobsByQueue[q]) && allocated(smallestFailedJobsByQueue[q].representatives)
 //@     invariant [tablesSeparate] forall q1 in smallestFailedJobsByQueue :: forall q2 in smallestFailedJobsByQueue :: q1 != q2 ==> smallestFailedJobsByQueue[q1].representatives != smallestFailedJobsByQueue[q2].representatives
 //@     invariant [tablesWellFormed] forall q in smallestFailedJobsByQueue :: common.repsWF(smallestFailedJobsByQueue[q])
